@@ -62,6 +62,8 @@ def oracle(case):
 
 
 def replay(case):
+    if case.get('interp'):
+        return fleet.replay_on(case['interp'], {'op': 'execdiff', 'src': case['source'], 'opts': case['opts']})
     return oracle(case)
 
 
@@ -92,3 +94,47 @@ def shard(ctx):
     strat = st.tuples(st.one_of(progs.programs(profile='shape', hoist_dense=True), progs.programs(profile='syntax', hoist_dense=True),
                                 progs.programs(profile='shape', level=(3, 12), hoist_dense=True)), hoist_option_sets())
     hyp_run(ctx, 'hoist', strat, prop, ctx.n(4000, 150000))
+    shard_py2(ctx)
+
+
+# -- python 2.7: 'a' == u'a' there, so the type-aware value key of the hoister matters -------------------------------------------
+
+PY2_VALUES = ['shared text value', 'another shared value', 'x' * 12]
+
+
+@st.composite
+def py2_hoist_programs(draw):
+    val = draw(st.sampled_from(PY2_VALUES))
+    fut = draw(st.sampled_from(['', '', 'from __future__ import unicode_literals\n']))
+    kinds = draw(st.lists(st.sampled_from(["'%s'", "u'%s'", "b'%s'"]), min_size=4, max_size=9))
+    items = ', '.join(k % val for k in kinds)
+    where = draw(st.sampled_from(['module', 'function', 'both']))
+    lines = [fut.strip()] if fut else []
+    if where in ('function', 'both'):
+        lines += ['def collect_values():', '    return [%s]' % items, 'for v in collect_values():', '    print type(v).__name__, repr(v)']
+    if where in ('module', 'both'):
+        lines += ['values = [%s]' % items, 'for v in values:', '    print type(v).__name__, repr(v)']
+    return '\n'.join(lines) + '\n'
+
+
+def shard_py2(ctx):
+    if ctx.index % 4 != 1 or fleet.interpreter_path('2.7') is None:
+        return
+    w = fleet.get_worker('2.7')
+
+    def prop(case):
+        src, opts = case
+        rep = w.call({'op': 'execdiff', 'src': src, 'opts': opts})
+        if rep.get('timeout') or rep.get('worker_died'):
+            ctx.note('worker_timeout_or_death:2.7')
+            return
+        if 'harness_error' in rep:
+            raise RuntimeError(rep['harness_error'])
+        if rep.get('domain') is False:
+            ctx.note('out_of_domain:2.7:' + str(rep.get('why')))
+            return
+        ctx.case(sha('py2', src, api.opts_key(opts)), bool(rep.get('changed')), classes=['interp:2.7', 'py2-str-vs-unicode'], sample={'interpreter': '2.7', 'source': src[:300], 'stdout': rep.get('stdout')})
+        if rep.get('ok') is False:
+            ctx.fail({'source': src, 'opts': opts, 'interp': '2.7'}, tuple(rep['signature']) + ('2.7',), rep.get('observed'))
+
+    hyp_run(ctx, 'py2hoist', st.tuples(py2_hoist_programs(), hoist_option_sets()), prop, ctx.n(300, 6000) * 4)
